@@ -496,9 +496,22 @@ func c13Directed() []C13Case {
 	kind := func(v string) *GSchema { return &GSchema{HasTypes: true, Types: []string{"string"}, Enum: []any{v}} }
 	brA := &GSchema{HasTypes: true, Types: []string{"object"}, Required: []string{"kind"}, Props: map[string]*GSchema{"kind": kind("a"), "xa": intD(1)}}
 	brB := &GSchema{HasTypes: true, Types: []string{"object"}, Required: []string{"kind"}, Props: map[string]*GSchema{"kind": kind("b"), "yb": intD(2)}}
+	// branches that reach into array elements before the discriminating member (sorted after it) fails
+	arrOf := func(it *GSchema) *GSchema { return &GSchema{HasTypes: true, Types: []string{"array"}, Items: it} }
+	elA := &GSchema{HasTypes: true, Types: []string{"object"}, Props: map[string]*GSchema{"xa": intD(1), "name": {HasTypes: true, Types: []string{"string"}}}}
+	elB := &GSchema{HasTypes: true, Types: []string{"object"}, Props: map[string]*GSchema{"yb": intD(2), "name": {HasTypes: true, Types: []string{"string"}}}}
+	brA2 := &GSchema{HasTypes: true, Types: []string{"object"}, Required: []string{"zkind"}, Props: map[string]*GSchema{"zkind": kind("a"), "list": arrOf(elA)}}
+	brB2 := &GSchema{HasTypes: true, Types: []string{"object"}, Required: []string{"zkind"}, Props: map[string]*GSchema{"zkind": kind("b"), "list": arrOf(elB)}}
+	brA3 := &GSchema{HasTypes: true, Types: []string{"object"}, Required: []string{"zkind"}, Props: map[string]*GSchema{"zkind": kind("a"), "list": arrOf(arrOf(elA))}}
+	brB3 := &GSchema{HasTypes: true, Types: []string{"object"}, Required: []string{"zkind"}, Props: map[string]*GSchema{"zkind": kind("b"), "list": arrOf(arrOf(elB))}}
 	var out []C13Case
 	for _, skip := range []bool{false, true} {
 		out = append(out,
+			C13Case{CT: "application/json", Skip: skip, BodySchema: &GSchema{OneOf: []*GSchema{brA2, brB2}}, Body: `{"list":[{"name":"n"},{}],"zkind":"b"}`, OtherBranch: []string{"xa"}},
+			C13Case{CT: "application/json", Skip: skip, BodySchema: &GSchema{AnyOf: []*GSchema{brA2, brB2}}, Body: `{"list":[{"name":"n"}],"zkind":"b"}`, OtherBranch: []string{"xa"}},
+			C13Case{CT: "application/json", Skip: skip, BodySchema: &GSchema{OneOf: []*GSchema{brB2, brA2}}, Body: `{"list":[{}],"zkind":"a"}`, OtherBranch: []string{"yb"}},
+			C13Case{CT: "application/json", Skip: skip, BodySchema: &GSchema{OneOf: []*GSchema{brA3, brB3}}, Body: `{"list":[[{"name":"n"}],[{}]],"zkind":"b"}`, OtherBranch: []string{"xa"}},
+			C13Case{CT: "application/json", Skip: skip, BodySchema: arrOf(&GSchema{OneOf: []*GSchema{brA2, brB2}}), Body: `[{"list":[{}],"zkind":"b"}]`, OtherBranch: []string{"xa"}},
 			C13Case{CT: "application/json", Skip: skip, BodySchema: &GSchema{OneOf: []*GSchema{brA, brB}}, Body: `{"kind":"b"}`, OtherBranch: []string{"xa"}},
 			C13Case{CT: "application/json", Skip: skip, BodySchema: &GSchema{OneOf: []*GSchema{brA, brB}}, Body: `{"kind":"a"}`, OtherBranch: []string{"yb"}},
 			C13Case{CT: "application/json", Skip: skip, BodySchema: &GSchema{AnyOf: []*GSchema{brA, brB}}, Body: `{"kind":"b"}`, OtherBranch: []string{"xa"}},
